@@ -765,6 +765,10 @@ impl<'a, const D: usize, const F: usize, const V: usize> Ctx<'a, D, F, V> {
                 let args = json!({"d": self.rel(hnum(&d)), "buf": bufsz, "reent": reent});
                 let mut storage = vec![0u8; bufsz];
                 let mut lb = LfnBuffer::new(&mut storage);
+                if op.get("prepush").and_then(|x| x.as_bool()).unwrap_or(false) {
+                    // the caller's buffer still holds part of a name from an earlier use: a listing starts afresh all the same
+                    lb.push(&[0x58, 0x59, 0x5A, 0x51, 0x52, 0x53, 0x54, 0x55, 0x56, 0x57, 0x4B, 0x4C, 0x4D]);
+                }
                 let mut ents = Vec::new();
                 let mut probe: Vec<J> = Vec::new();
                 let mut first = true;
@@ -847,9 +851,11 @@ impl<'a, const D: usize, const F: usize, const V: usize> Ctx<'a, D, F, V> {
                 let ou = self.vals.b2u(off).unwrap_or(off / 512 * self.vals.upb() as u64);
                 let mut bytes = Vec::new();
                 let mut vs = Vec::new();
+                let zeros = op.get("zero").and_then(|x| x.as_bool()).unwrap_or(false);
                 for i in 0..n {
                     let j = ((ou + i) % self.vals.upb() as u64) as usize;
-                    let (v, b) = self.vals.fresh(j);
+                    // (zero: the caller writes zero bytes - value 0 of the model - which is what a blanked cache block holds too)
+                    let (v, b) = if zeros { (0, vec![0u8; self.vals.unit_len(j)]) } else { self.vals.fresh(j) };
                     vs.push(v);
                     bytes.extend_from_slice(&b);
                 }
@@ -1127,6 +1133,9 @@ fn run_ops<const D: usize, const F: usize, const V: usize>(
 /// Run one history and append its events.
 pub fn run_history(h: &J, events: &mut Vec<J>, opts: &RunOpts, sink: &mut Sink) -> Stats {
     crate::set_log(h.get("log").and_then(|x| x.as_bool()).unwrap_or(false));
+    // (a history can ask for a crash mount after every single device write when crash mounts are on at all)
+    let every = RunOpts { crash_permille: 1000, seed: opts.seed, remount: opts.remount };
+    let opts = if opts.crash_permille > 0 && h.get("crashall").and_then(|x| x.as_bool()).unwrap_or(false) { &every } else { opts };
     let bounds: Vec<usize> = h.get("bounds").and_then(|x| x.as_array()).map(|a| a.iter().map(|x| x.as_u64().unwrap() as usize).collect()).unwrap_or(vec![0, 3, 255, 509]);
     let mut vals = Vals::new(bounds.clone());
     let img = mkfs::build(&h["image"], &mut vals);
